@@ -168,6 +168,8 @@ def handle : Handler := fun op args impl =>
       match res with
       | some (full, ok) =>
         if !distinct || !ok then some ⟨full, "na"⟩
+        else if (impl.splitOn ",").contains "foreign" then
+          some ⟨full, "fail:support-" ++ what ++ "-some-run-returned-something-that-is-not-admissible"⟩
         else some ⟨full, verdictOf (impl == full) ("support-" ++ what ++ "-outcome-never-reached")⟩
       | none => some ⟨"err", "na"⟩
     | "shufflesites", [rate, rrate, first] => do
